@@ -179,6 +179,7 @@ static PCToken      MomSection;
 static char*        LastGlobSymbol;
 static PFunction    FirstFunction; /* Liste definierter Funktionen */
 static LongInt      FuncNestLevel; /* nesting depth of user-defined function calls */
+static Boolean      FuncNestOverflow; /* nesting limit hit: the enclosing formulas return at once */
 
 void AsmParsInit(void) {
     FirstSymbol = NULL;
@@ -1499,6 +1500,14 @@ void EvalStrExpression(tStrComp const* pExpr, TempResult* pErg) {
             tStrComp    CompArg;
             as_dynstr_t stemp;
 
+            /* the nesting limit was hit further down in this evaluation, and the
+               error is reported: the formulas of the enclosing calls do not go on
+               with their remaining calls (that took 2^NestMax evaluations) */
+
+            if (FuncNestOverflow) {
+                LEAVE;
+            }
+
             PromotedFlags         = eSymbolFlag_None;
             PromotedAddrSpaceMask = 0;
             PromotedDataSize      = eSymbolSizeUnknown;
@@ -1547,11 +1556,14 @@ void EvalStrExpression(tStrComp const* pExpr, TempResult* pErg) {
             StrCompMkTemp(&CompArg, CompArgStr.p_str, CompArgStr.capacity);
             if ((NestMax > 0) && (FuncNestLevel >= NestMax)) {
                 WrError(ErrNum_RekMacro);
+                FuncNestOverflow = True;
                 LEAVE2;
             }
             FuncNestLevel++;
             EvalStrExpression(&CompArg, pErg);
-            FuncNestLevel--;
+            if (!--FuncNestLevel) {
+                FuncNestOverflow = False;
+            }
             pErg->Flags |= PromotedFlags;
             pErg->AddrSpaceMask |= PromotedAddrSpaceMask;
             if (pErg->DataSize == eSymbolSizeUnknown) {
